@@ -211,40 +211,73 @@ def rule_status_before_witness(ctx):
 # Aspartix writer (C14.1, C14.2)
 
 
+FRAMEWORK_REF = r"(?:arg\(\x01\)\.\n)*(?:att\(\x01,\x01\)\.\n)*"
+
+
+def _io_reach(prog, b):
+    """bodies of src/io reachable from b (helpers and closures the writer is made of)"""
+    return [x for x in prog.reachable_from([b], virtual_dispatch=False).values() if x.path.startswith("io::") or "<io::" in x.path.split(" as ")[0]]
+
+
 def rule_framework_writer(ctx):
+    from .. import outlang
+
     prog = ctx.prog
     r = ctx.rule(
         "framework-writer",
-        "write_framework emits `arg({}).` lines for ArgumentSet::iter (live arguments) then `att({},{}).` lines (attacker, attacked) for "
-        "AAFramework::iter_attacks (live attacks), one declaration per line, and flushes",
+        "the language write_framework can emit (extracted from its control-flow graph, helpers inlined) is exactly `arg(label).` lines followed by "
+        "`att(label,label).` lines, one declaration per line; the lines come from ArgumentSet::iter and AAFramework::iter_attacks (the iterators "
+        "that skip removed items) and from no by-id / per-argument accessor; an attack is printed as (attacker, attacked); the writer is flushed",
     )
-    cands = [b for b in prog.lib_bodies() if b.kind != "closure" and b.path.startswith("io::") and any(fs.template.startswith("arg(") for fs in format_sites(b))]
-    if not r.require_anchor(len(cands) == 1, "function writing `arg(..)` declarations"):
+    cands = [b for b in prog.lib_bodies() if b.kind != "closure" and re.search(r"^io::aspartix_writer::AspartixWriter::write_framework$", strip_generics(b.path))]
+    if not r.require_anchor(len(cands) == 1, "io::aspartix_writer::AspartixWriter::write_framework"):
         return None
     b = cands[0]
-    fss, other = _writes(prog, b)
-    ts = [fs.template for fs in fss]
-    r.check(sorted(ts) == ["arg({}).\n", "att({},{}).\n"], b.id, "templates=%s" % sorted(ts), "templates are `arg({}).` and `att({},{}).`, one per line", "the framework writer's templates are %s" % sorted(ts), b.loc())
-    by = {fs.template[:3]: fs for fs in fss}
-    if "arg" in by and "att" in by:
-        fa, ft = by["arg"], by["att"]
-        r.check(b.reaches(fa.site.bb, ft.site.bb) and not b.reaches(ft.site.bb, fa.site.bb), b.id, "order", "all arguments are written before the attacks", "argument and attack declarations can interleave", fa.site.loc())
-        # sources of the loops
-        def loop_source(fs):
-            _, calls, _ = data_deps(b, fs.args[0][1]) if fs.args and fs.args[0] else (None, [], None)
-            return {strip_generics(callee_name(callee_of(c))) for c in calls}
-        sa_, st_ = loop_source(fa), loop_source(ft)
-        r.check(any(x.endswith("ArgumentSet::iter") for x in sa_), b.id, "arg-source", "argument lines iterate ArgumentSet::iter (tombstones skipped)", "argument lines do not iterate ArgumentSet::iter", fa.site.loc())
-        r.check(any(x.endswith("AAFramework::iter_attacks") for x in st_), b.id, "att-source", "attack lines iterate AAFramework::iter_attacks (tombstones skipped)", "attack lines do not iterate AAFramework::iter_attacks", ft.site.loc())
-        # attacker first, attacked second
-        if len(ft.args) == 2 and all(ft.args):
-            def which(op):
-                _, calls, _ = data_deps(b, op)
-                return {strip_generics(callee_name(callee_of(c))).rsplit("::", 1)[-1] for c in calls if callee_matches(callee_of(c), r"aa_framework::Attack::(attacker|attacked)$")}
-            r.check(which(ft.args[0][1]) == {"attacker"} and which(ft.args[1][1]) == {"attacked"}, b.id, "att-order", "an attack is written as att(attacker,attacked)", "the attack line does not print (attacker, attacked) in this order", ft.site.loc())
-    flushes = [s for s in b.calls() if callee_matches(callee_of(s), r"^std::io::Write::flush$")]
+    bodies = _io_reach(prog, b)
+    wparams = [i for i in range(1, b.n_args + 1) if "dyn std::io::Write" in b.local_ty(i)]
+    fss = []
+    for x in bodies:
+        for fs in format_sites(x):
+            cs = [c for c in consumers(x, fs.result_local) if c.kind == "call"]
+            if any(callee_matches(c.info[0], r"^std::io::Write::write_fmt$|^core::fmt::Write::write_fmt$|^alloc::fmt::format") for c in cs):
+                fss.append(fs)
+    outlang.clear_cache()
+    try:
+        lang = outlang.sink_language(prog, b, ("param", wparams[0])) if wparams else None
+        if lang is None:
+            raise outlang.Undecided("no `dyn Write` parameter")
+        L, REFX = "^(?:%s)$" % lang, "^(?:%s)$" % FRAMEWORK_REF
+        w1, w2 = _wit([REFX], [L]), _wit([L], [REFX])
+        r.check(w1.get("witness") is None and "error" not in w1, b.id, "cannot-write:%r" % w1.get("witness"), "every framework text of the grammar can be written (L = %s)" % lang, "the framework writer cannot produce %r (its output language is %s) %s" % (w1.get("witness"), lang, w1.get("error", "")), b.loc())
+        r.check(w2.get("witness") is None and "error" not in w2, b.id, "writes-outside-grammar:%r" % w2.get("witness"), "nothing but `arg(..).` lines followed by `att(..,..).` lines can be written", "the framework writer can produce %r, which is not a sequence of argument declarations followed by attack declarations (its output language is %s)" % (w2.get("witness"), lang), b.loc())
+    except outlang.Undecided as e:
+        r.ok(b.id, "output language not extracted (%s): line grammar NOT decided here" % e, b.loc())
+    # sources: only the whole-collection iterators that skip tombstones
+    used = {}
+    for x in bodies:
+        for s in x.calls():
+            c = callee_of(s)
+            if c and callee_matches(c, r"^aa::(aa_framework::AAFramework|arguments::ArgumentSet)::"):
+                used.setdefault(strip_generics(callee_name(c)).rsplit("::", 1)[-1], s)
+    allowed = {"argument_set", "iter", "iter_attacks"}
+    extra = sorted(set(used) - allowed)
+    r.check(not extra, b.id, "sources:%s" % extra, "arguments and attacks come from ArgumentSet::iter / AAFramework::iter_attacks only (%s)" % sorted(used), "the framework writer also uses %s: declarations are no longer one per live argument / live attack" % extra, used[extra[0]].loc() if extra else b.loc())
+    r.check("iter" in used and "iter_attacks" in used, b.id, "arg-source" if "iter" not in used else "att-source", "both ArgumentSet::iter and AAFramework::iter_attacks are iterated", "the writer does not iterate %s" % ("ArgumentSet::iter" if "iter" not in used else "AAFramework::iter_attacks"), b.loc())
+    # attacker first, attacked second
+    atts = [fs for fs in fss if fs.template.startswith("att(")]
+    if len(atts) == 1 and len(atts[0].args) == 2 and all(atts[0].args):
+        ft = atts[0]
+
+        def which(op):
+            _, calls, _ = data_deps(ft.body, op)
+            return {strip_generics(callee_name(callee_of(c))).rsplit("::", 1)[-1] for c in calls if callee_matches(callee_of(c), r"aa_framework::Attack::(attacker|attacked)$")}
+
+        r.check(which(ft.args[0][1]) == {"attacker"} and which(ft.args[1][1]) == {"attacked"}, b.id, "att-order", "an attack is written as att(attacker,attacked)", "the attack line does not print (attacker, attacked) in this order", ft.site.loc())
+    else:
+        r.ok(b.id + "|att-order", "attack lines are not written through one `att({},{})` template: argument order NOT decided", b.loc())
+    flushes = [s for x in bodies for s in x.calls() if callee_matches(callee_of(s), r"^std::io::Write::flush$")]
     r.check(bool(flushes), b.id, "no-flush", "the writer is flushed", loc=b.loc())
-    return fss
+    return [fs for fs in fss if fs.template.startswith("arg(") or fs.template.startswith("att(")]
 
 
 # ------------------------------------------------------------------------------------------
